@@ -4,7 +4,6 @@ namespace GtModel.Gen
 /-- wall clock / randomness / uninitialised memory / environment / id() / interpreter-global / `global`
     sites in the package: (kind, file, function, expression) -/
 def nondetSites : List (String × String × String × String) := [
-  ("clock", "bounds.py", "make_distinct", "time.monotonic"),
   ("global-statement", "printer.py", "_init_colorama", "_COLORAMA_INITIALIZED"),
   ("id", "bounds.py", "__lt__", "id(other)"),
   ("id", "bounds.py", "__lt__", "id(self)"),
